@@ -55,6 +55,28 @@ Proof.
 Qed.
 
 (* whatever the middleware serves is a regular file inside the directory, reached by plain components *)
+(* whatever Open resolves - through http.Dir or through http.FS - is a list of plain components *)
+Lemma valid_comp_plain c : valid_comp c = true -> plain_comp c.
+Proof.
+  unfold valid_comp, plain_comp. intros H. apply negb_true_iff in H. apply orb_false_iff in H as [H D2]. apply orb_false_iff in H as [E D1].
+  split; [intros ->; discriminate|]. split; intros ->; [rewrite str_eqb_refl in D1 | rewrite str_eqb_refl in D2]; discriminate.
+Qed.
+
+Lemma open_rel_plain fs name rel : open_rel fs name = Some rel ->
+  Forall plain_comp rel /\ Forall (fun c => ~ In c_slash c) rel.
+Proof.
+  unfold open_rel. destruct fs.
+  - unfold fs_rel. destruct (str_eqb name [c_slash]); [intros H; inversion H; split; constructor|].
+    set (n := match name with c :: r => if N.eqb c c_slash then r else name | [] => [] end).
+    destruct (str_eqb n dot); [intros H; inversion H; split; constructor|].
+    destruct (forallb valid_comp (split_slash [] n) && negb (existsb has_nul (split_slash [] n))) eqn:V; [|discriminate].
+    intros H. inversion H; subst. apply andb_prop in V as [V _]. split.
+    + apply Forall_forall. intros c Hc. apply valid_comp_plain. rewrite forallb_forall in V. exact (V c Hc).
+    + apply split_slash_no_slash. intros [].
+  - unfold dir_rel. destruct (existsb has_nul (clean_rooted name)); [discriminate|]. intros H. inversion H; subst.
+    split; [apply clean_no_dotdot | apply clean_no_slash].
+Qed.
+
 Theorem served_is_inside root dir o m p inm id rel :
   (static_decide root dir o m p inm = SServe id rel \/ static_decide root dir o m p inm = SNotModified id rel) ->
   lookup_node root (dir ++ rel) = Some (File id) /\ Forall plain_comp rel /\ Forall (fun c => ~ In c_slash c) rel.
@@ -67,8 +89,10 @@ Proof.
               lookup_node root (dir ++ rel') = Some (File id') /\ Forall plain_comp rel' /\ Forall (fun c => ~ In c_slash c) rel').
   { intros f id' rel' H ->. unfold dir_open in H. destruct (existsb has_nul (clean_rooted f)); [discriminate|].
     split; [exact H|]. split; [apply clean_no_dotdot | apply clean_no_slash]. }
-  destruct (dir_open root dir file) as [[fid|es]|] eqn:O; [| |intros [H|H]; discriminate].
-  - destruct (so_etag o && inm); intros [H|H]; inversion H; subst; apply (G file); auto.
+  destruct (open_rel (so_fs o) file) as [rel0|] eqn:OR; [|intros [H|H]; discriminate].
+  destruct (lookup_node root (dir ++ rel0)) as [[fid|es]|] eqn:O; [| |intros [H|H]; discriminate].
+  - destruct (open_rel_plain _ _ _ OR) as [P1 P2].
+    destruct (so_etag o && inm); intros [H|H]; inversion H; subst; auto.
   - match goal with |- context [if negb (ends_with_slash ?R) then _ else _] => destruct (negb (ends_with_slash R)) end;
       [intros [H|H]; discriminate|].
     destruct (dir_open root dir (file ++ [c_slash] ++ so_index o)) as [[fid|es2]|] eqn:O2; try (intros [H|H]; discriminate).
@@ -101,7 +125,8 @@ Proof.
   unfold static_decide.
   destruct (negb (str_eqb m s_get || str_eqb m s_head)); [discriminate|].
   match goal with |- context [match ?X with Some _ => _ | None => SPass end] => destruct X as [file0|] end; [|discriminate].
-  match goal with |- context [dir_open root dir ?F] => destruct (dir_open root dir F) as [[fid|es]|] end; try discriminate.
+  match goal with |- context [open_rel ?B ?F] => destruct (open_rel B F) as [rel0|] end; [|discriminate].
+  destruct (lookup_node root (dir ++ rel0)) as [[fid|es]|]; try discriminate.
   - destruct (so_etag o && inm); discriminate.
   - match goal with |- context [if negb (ends_with_slash ?R) then _ else _] => destruct (negb (ends_with_slash R)) eqn:E end.
     + intros H; inversion H. unfold ends_with_slash. rewrite rev_app_distr. reflexivity.
